@@ -430,6 +430,32 @@ def runHistory (db : DB) : List Txn → DB × List (List Reply × Result × Nat)
 def update (db : DB) (prog : List Op) (o : Outcome) : DB × (List Reply × Result × Nat) := runTxn db ⟨.update, prog, o⟩
 def viewTx (db : DB) (prog : List Op) (o : Outcome) : DB × (List Reply × Result × Nat) := runTxn db ⟨.view, prog, o⟩
 
+/-- One caller of a group of concurrent `walletdb.Batch` calls: its closure puts `k ↦ v` into bucket `p`, hands back the
+error of `Put` if there is one (its own error if the bucket does not resolve), else ends with `o`.  bbolt may
+coalesce the callers into one transaction and re-run closures after a sibling failed; the contract is that each
+caller nevertheless gets exactly what a solo run would have given. -/
+structure BatchCall where
+  p : Path
+  k : Bytes
+  v : Bytes
+  o : Outcome
+deriving Repr, Inhabited
+
+def batchCall (db : DB) (c : BatchCall) : DB × Result :=
+  match step (Kind.batch.begin db) (.put c.p c.k c.v) with
+  | (t, .ok) => ((finishUpdate t c.o).1, (finishUpdate t c.o).2.1)
+  | (_, .err e) => (db, .err e)
+  | _ => (db, .err .user)
+
+/-- The callers one after the other (for pairwise different entries the order does not matter:
+`C11_batch_calls_commute`). -/
+def batchCalls (db : DB) : List BatchCall → DB × List Result
+  | [] => (db, [])
+  | c :: rest =>
+    let (db1, r) := batchCall db c
+    let (db2, rs) := batchCalls db1 rest
+    (db2, r :: rs)
+
 /-- Closing and reopening the file: the committed state is what is on disk. -/
 def reopen (db : DB) : DB := db
 
